@@ -19,9 +19,9 @@ func init() { register(c05{}) }
 func (c05) ID() string { return "C05" }
 func (c05) Size(tier string) Size {
 	if tier == "thorough" {
-		return Size{Batches: 32, Cases: 700}
+		return Size{Batches: 32, Cases: 450}
 	}
-	return Size{Batches: 16, Cases: 200}
+	return Size{Batches: 16, Cases: 140}
 }
 func (c05) Rule() string {
 	return "case = random schema (soft and struct-backed types over all kinds) + a valid document / resource / identifier payload marshaled by the library itself, then attacked: raw random bytes, bit flips, truncation at EVERY byte offset, nesting to depth 20000, structure-aware mutation (each value position replaced by a number / string / bool / null / array / object - a sample of positions in quick, every position in thorough), unknown and missing types, unknown fields, duplicate keys, [null] elements; every input goes through all seven entry points (UnmarshalDocument, UnmarshalResource, UnmarshalPartialResource, UnmarshalCollection, UnmarshalIdentifier, UnmarshalIdentifiers, NewRequest with GET/POST/PATCH/DELETE). Oracle: no panic; exactly one of result / error; every resource reachable from a result has a type of the schema, every attribute a value of exactly the declared Go type (nil allowed for nullable), to-one a string, to-many a []string. Non-trivial = input that is valid JSON; distinct = input hash."
@@ -376,8 +376,19 @@ func (m c05) Case(c *Ctx, r *RNG) {
 		m.attack(c, s, schema, []byte(strings.Repeat(open, depth)+"1"+strings.Repeat(close, depth)), "deep")
 		m.attack(c, s, schema, []byte(`{"data":{"type":"`+s.Types[0].Name+`","id":"1","attributes":`+strings.Repeat("[", depth)+strings.Repeat("]", depth)+`}}`), "deep")
 	}
-	// (d) structure-aware mutation of every / sampled value position
+	// (d) structure-aware mutation of every / sampled value position; also of the same documents ENRICHED with every
+	// optional member JSON:API allows and the library may or may not read (top-level links / jsonapi, links objects
+	// with href and meta, resource and relationship meta and links, lid, identifier meta)
+	bases2 := [][]byte{valid, resPayload}
 	for _, b := range [][]byte{valid, resPayload} {
+		if root, err := parseJV(b); err == nil {
+			c05enrich(root, true)
+			eb := root.bytes()
+			m.attack(c, s, schema, eb, "enriched")
+			bases2 = append(bases2, eb)
+		}
+	}
+	for _, b := range bases2 {
 		root, err := parseJV(b)
 		if err != nil {
 			continue
@@ -457,6 +468,39 @@ func (m c05) Case(c *Ctx, r *RNG) {
 			v.Vals = append(v.Vals, &JV{Kind: 'r', Str: c05replacements[r.Intn(len(c05replacements))]})
 			return r.Bool()
 		})
+		mut("member-removed", func(v *JV) bool { // e.g. no attributes at all, a relationship with meta but no data
+			if len(v.Keys) == 0 || !r.Chance(1, 3) {
+				return false
+			}
+			i := r.Intn(len(v.Keys))
+			v.Keys = append(v.Keys[:i], v.Keys[i+1:]...)
+			v.Vals = append(v.Vals[:i], v.Vals[i+1:]...)
+			return true
+		})
+		mut("member-removed", func(v *JV) bool {
+			for i, k := range v.Keys {
+				if k == "attributes" {
+					v.Keys = append(v.Keys[:i], v.Keys[i+1:]...)
+					v.Vals = append(v.Vals[:i], v.Vals[i+1:]...)
+					// and the data member of its relationships
+					for j, k2 := range v.Keys {
+						if k2 == "relationships" && v.Vals[j].Kind == 'o' {
+							for _, rel := range v.Vals[j].Vals {
+								for x, k3 := range rel.Keys {
+									if k3 == "data" && rel.Kind == 'o' {
+										rel.Keys = append(rel.Keys[:x], rel.Keys[x+1:]...)
+										rel.Vals = append(rel.Vals[:x], rel.Vals[x+1:]...)
+										break
+									}
+								}
+							}
+						}
+					}
+					return true
+				}
+			}
+			return false
+		})
 		mut("null-element", func(v *JV) bool {
 			for i, k := range v.Keys {
 				if (k == "data" || k == "included") && v.Vals[i].Kind == 'a' {
@@ -470,6 +514,77 @@ func (m c05) Case(c *Ctx, r *RNG) {
 	m.attack(c, s, schema, []byte(`[null]`), "null-element")
 	m.attack(c, s, schema, []byte(`{"data":[null]}`), "null-element")
 	m.attack(c, s, schema, []byte(`{"data":null,"included":[null]}`), "null-element")
+}
+
+// c05enrich adds the optional members of JSON:API to a document or resource payload.
+func c05enrich(v *JV, top bool) {
+	if v == nil {
+		return
+	}
+	mk := func(text string) *JV { j, _ := parseJV([]byte(text)); return j }
+	set := func(o *JV, k, text string) {
+		for _, have := range o.Keys {
+			if have == k {
+				return
+			}
+		}
+		o.Keys = append(o.Keys, k)
+		o.Vals = append(o.Vals, mk(text))
+	}
+	// an existing links object gets one more link, written as a link object with href and meta
+	addLink := func(o *JV) {
+		for i, k := range o.Keys {
+			if k == "links" && o.Vals[i].Kind == 'o' {
+				set(o.Vals[i], "describedby", `{"href":"/d","meta":{"m":1}}`)
+				set(o.Vals[i], "about", `{"href":"/about"}`)
+			}
+		}
+	}
+	switch v.Kind {
+	case 'a':
+		for _, e := range v.Arr {
+			c05enrich(e, false)
+		}
+	case 'o':
+		addLink(v)
+		isRes := false
+		for _, k := range v.Keys {
+			if k == "type" {
+				isRes = true
+			}
+		}
+		for i, k := range v.Keys {
+			switch k {
+			case "data", "included":
+				c05enrich(v.Vals[i], false)
+			case "relationships":
+				if v.Vals[i].Kind == 'o' {
+					for _, rel := range v.Vals[i].Vals {
+						if rel.Kind == 'o' {
+							addLink(rel)
+							set(rel, "meta", `{"n":1,"nested":{"a":[1,2]}}`)
+							set(rel, "links", `{"self":{"href":"/r/self","meta":{"count":2}},"related":"/r/related"}`)
+							for j, k2 := range rel.Keys {
+								if k2 == "data" {
+									c05enrich(rel.Vals[j], false)
+								}
+							}
+						}
+					}
+				}
+			}
+		}
+		if isRes {
+			set(v, "meta", `{"k":1,"s":"x"}`)
+			set(v, "links", `{"self":{"href":"/s","meta":{"m":true}}}`)
+			set(v, "lid", `"local-1"`)
+		}
+		if top {
+			set(v, "links", `{"self":{"href":"/a","meta":{"m":1}},"related":"/x","next":null}`)
+			set(v, "jsonapi", `{"version":"1.1","meta":{"x":[]},"ext":["https://e/x"]}`)
+			set(v, "meta", `{"top":{"deep":[{"a":null}]}}`)
+		}
+	}
 }
 
 // c05named has attribute fields of user-defined types. BuildType refuses it today; a library that accepts such
